@@ -288,7 +288,7 @@ func main() {
 			}
 			budget := 0.0
 			if j.baseline == "" {
-				budget = initT*3 + *factor*(*floor) // a baseline has no reference: generous absolute bound
+				budget = *factor * (initT + *floor) // a baseline has no reference: factor x (the shared part + floor)
 			} else {
 				extra := 0.0
 				for _, bn := range strings.Split(j.baseline, "+") {
